@@ -73,6 +73,9 @@ K2_TRIAGED = {
     ('el3v', 'np.sum(_)'): 'count used only for allocation',
     ('el3_angle', 'np.sum(_)'): 'count used only for allocation',
 }
+from common import canon_text as _ct
+K1_TRIAGED = {(f, _ct(sh)): v for (f, sh), v in K1_TRIAGED.items()}
+K2_TRIAGED = {(f, _ct(sh)): v for (f, sh), v in K2_TRIAGED.items()}
 RED = {"sum", "mean", "cumsum", "cumprod", "sort", "argsort", "roll", "unique", "median", "max", "min", "amax", "amin", "diff", "flip", "prod",
        "std", "var", "argmax", "argmin", "ptp", "average", "nansum", "nanmax", "nanmin", "nanmean", "searchsorted", "partition", "percentile",
        "quantile", "trapz", "convolve", "correlate", "interp", "histogram", "bincount", "lexsort"}
@@ -85,6 +88,11 @@ def shape(node):
     for x in ast.walk(n):
         if isinstance(x, ast.Name) and x.id not in ("np", "len", "all", "any", "abs", "set", "range", "zip"):
             x.id = "_"
+    from common import _Canon
+    try:
+        n = ast.fix_missing_locations(_Canon().visit(n))
+    except Exception:  # noqa
+        pass
     return norm(n)
 
 
@@ -172,7 +180,10 @@ def k1_k2(repo, res):
                 # nested functions are walked as part of their parent; skip duplicates
                 if isinstance(n, ast.If) and n in RUN_GROUP_IFS:
                     continue   # the run-group idiom, decided by RUN-GROUP
-                key = (fname, shape(n.test))
+                t_ = n.test
+                while isinstance(t_, ast.UnaryOp) and isinstance(t_.op, ast.Not) and isinstance(n, ast.If) and n.orelse:
+                    t_ = t_.operand          # `if not c: B else: A` is the site `if c: A else: B`
+                key = (fname, shape(t_))
                 n1 += 1
                 auto = skip_empty_work(n)
                 ok = auto or key in K1_TRIAGED
@@ -304,7 +315,7 @@ def run_group(repo, res):
                     has_val = True
                     if "array_equal" in t:
                         has_shape = True
-                if re.fullmatch(rf"{b} == len\(\w+\)", t):
+                if re.fullmatch(rf"{b} == len\(\w+\)", t) or re.fullmatch(rf"len\(\w+\) == {b}", t):
                     has_last = True
                     if d is not disj[0]:
                         problems.append("the end-of-rows test must be the first disjunct (the row comparison indexes out of range otherwise)")
@@ -457,9 +468,9 @@ def level2(repo, res):
 # scalar/vectorised twins selected by batch size: their branch conditions must partition the inputs identically
 TWINS = [("special_cel", "cel0", "celv"), ("special_cel", "cel_iter0", "cel_iterv"), ("special_el3", "el30", "el3v")]
 TWIN_TRIAGED = {
-    ("cel0", "celv", "scalar", ("_", "0", "==", 1)): "scalar version rejects kc == 0 with RuntimeError; the guard is commented out in the vector version and callers mask that edge",
-    ("el30", "el3v", "scalar", ("_", "0", ">", 1)): "scalar version branches once more on a sign where the vector version uses pre-computed masks",
-    ("el30", "el3v", "vector", ("_", "0.5", ">", 1)): "vector version tests the named intermediate pm > 0.5 where the scalar version nests the same test differently",
+    ("cel0", "celv", "scalar", ("0", "_", "==", 1)): "scalar version rejects kc == 0 with RuntimeError; the guard is commented out in the vector version and callers mask that edge",
+    ("el30", "el3v", "scalar", ("0", "_", "<", 1)): "scalar version branches once more on a sign where the vector version uses pre-computed masks",
+    ("el30", "el3v", "vector", ("0.5", "_", "<", 1)): "vector version tests the named intermediate pm > 0.5 where the scalar version nests the same test differently",
 }
 
 
@@ -476,12 +487,13 @@ def twin_conditions(fn):
                 t = re.sub(r"\b(\d+)\.0\b", r"\1", t)
                 return t
             a, b, op = strip(c.left), strip(c.comparators[0]), c.ops[0]
+            # a condition is identified by the partition it induces: {a > b | a <= b} is the same partition as {b < a | b >= a}
             if isinstance(op, (ast.Gt, ast.LtE)):
-                out[(a, b, ">")] += 1        # {a > b} / {a <= b}: the boundary belongs to the lower side
+                out[(b, a, "<")] += 1
             elif isinstance(op, (ast.Lt, ast.GtE)):
-                out[(a, b, "<")] += 1        # {a < b} / {a >= b}: the boundary belongs to the upper side
+                out[(a, b, "<")] += 1
             elif isinstance(op, (ast.Eq, ast.NotEq)):
-                out[(a, b, "==")] += 1
+                out[tuple(sorted((a, b))) + ("==",)] += 1
     return out
 
 
